@@ -25,6 +25,8 @@ type Options struct {
 	// called each time that happens.
 	NoTracedClassInCond bool
 	Excluded            func()
+	// Latin1Text lets a file have its text nodes written in ISO-8859-1 (bytes that are not UTF-8).
+	Latin1Text bool
 }
 
 var DefaultOptions = Options{MaxDepth: 4, MaxTemplates: 3, Ticks: true, Extras: true}
